@@ -248,10 +248,39 @@ def _expand_closures(fn: ast.AST, skip_known: tuple[str, set[str]] | None = None
         if not isinstance(st, ast.FunctionDef) or st.decorator_list:
             continue
         a = st.args
-        if a.args or a.posonlyargs or a.kwonlyargs or a.vararg or a.kwarg:
-            continue
         if skip_known is not None and f'{skip_known[0]}.<locals>.{st.name}' in skip_known[1]:
             continue        # a nested function the inventory knows
+        if a.args and not (a.posonlyargs or a.kwonlyargs or a.vararg or a.kwarg or a.defaults):
+            # an expression closure with plain parameters, applied to plain arguments: its expression with the arguments in place
+            body_ = [x for x in st.body if not (isinstance(x, ast.Expr) and isinstance(x.value, ast.Constant))]
+            if len(body_) == 1 and isinstance(body_[0], ast.Return) and body_[0].value is not None \
+                    and not any(isinstance(n, (ast.Lambda, ast.Yield, ast.YieldFrom, ast.Await, ast.NamedExpr)) for n in ast.walk(body_[0].value)):
+                params_ = [x.arg for x in a.args]
+                uses_ = [n for n in ast.walk(fn) if isinstance(n, ast.Name) and n.id == st.name]
+                calls_ = [n for n in ast.walk(fn) if isinstance(n, ast.Call) and isinstance(n.func, ast.Name) and n.func.id == st.name and not n.keywords
+                          and len(n.args) == len(params_) and all(_simple(x) for x in n.args)]
+                bound_ = {n.id for n in ast.walk(body_[0].value) if isinstance(n, ast.Name) and isinstance(n.ctx, ast.Store)}
+                if uses_ and len(uses_) == len(calls_) and not bound_:
+                    expr_ = body_[0].value
+
+                    class _Rp(ast.NodeTransformer):
+                        def visit_Call(self, n: ast.Call) -> ast.AST:  # noqa: N802
+                            self.generic_visit(n)
+                            if any(n is c_ for c_ in calls_):
+                                m_ = dict(zip(params_, n.args))
+
+                                class _S(ast.NodeTransformer):
+                                    def visit_Name(self, x: ast.Name) -> ast.AST:  # noqa: N802
+                                        return copy.deepcopy(m_[x.id]) if x.id in m_ and isinstance(x.ctx, ast.Load) else x
+                                return ast.copy_location(_S().visit(copy.deepcopy(expr_)), n)
+                            return n
+                    fn.body.remove(st)  # type: ignore[attr-defined]
+                    _Rp().visit(fn)
+                    ast.fix_missing_locations(fn)
+                    done = True
+            continue
+        if a.args or a.posonlyargs or a.kwonlyargs or a.vararg or a.kwarg:
+            continue
         body = [copy.deepcopy(x) for x in st.body]
         if body and isinstance(body[0], ast.Expr) and isinstance(body[0].value, ast.Constant):
             body = body[1:]
